@@ -65,7 +65,7 @@ Definition end_of (tcall : N) (a : aw) : N := (start_of tcall a + adelay a)%N.
 Fixpoint insert_ev (ev : N * nat) (l : list (N * nat)) : list (N * nat) :=
   match l with
   | [] => [ev]
-  | ev' :: r => if (fst ev <? fst ev')%N then ev :: l else ev' :: insert_ev ev r
+  | ev' :: r => if (fst ev <=? fst ev')%N then ev :: l else ev' :: insert_ev ev r
   end.
 Fixpoint sort_evs (l : list (N * nat)) : list (N * nat) :=
   match l with
@@ -86,7 +86,7 @@ Record gst := mkg {
   res : nat -> option outcome;      (* result slot of child i (None = pending) *)
   nfin : nat;                       (* gather's nfinished counter *)
   outer : option (N * list (option outcome));  (* outer future: (tick set, results in child order) *)
-  clog : list (nat * N)             (* ghost: completion log (index, tick), finishing order *)
+  clog : list (nat * N)             (* ghost: completion log (index, tick the child completed), finishing order *)
 }.
 
 Definition ginit (tcall : N) : gst := mkg tcall (fun _ => None) 0 None [].
@@ -109,7 +109,7 @@ Section Machine.
                    then Some (t', map res' (seq 0 nchildren))
                    else None
          end)
-        (clog s ++ [(i, t')]).
+        (clog s ++ [(i, t)]).
 
   Definition grun (tcall : N) (sched : list (N * nat)) : gst :=
     fold_left gstep sched
